@@ -75,7 +75,7 @@ def faults(case):
         yield "shift_B0", "first", s, rebuild(case, sync_lines(truth, tempos=[[s, T[0][1]]] + T[1:])), None
     yield "drop_TS0", "first", 0, rebuild(case, sync_lines(truth, timesigs=S[1:])), None
     for s in (1, 7):
-        yield "shift_TS0", "first", s, rebuild(case, sync_lines(truth, timesigs=sorted([[s, S[0][1], S[0][2]]] + S[1:]))), None
+        yield "shift_TS0", "first", s, rebuild(case, sync_lines(truth, timesigs=sorted([[s, S[0][1], S[0][2]]] + S[1:], key=lambda x: x[0]))), None
     for k in range(n):
         # duplicate tempo tick k: a second B line at the same tick
         lines = sync_lines(truth)
@@ -159,8 +159,11 @@ def judge_fault(rec, op, poslab, k, text, zero_tick, truth):
 
 def negative_queries(rec, chart, text):
     be = chart.sync_track.bpm_events
+    last = len(be) - 1
     for q in (-1, -(10**9)):
-        for fn, nm in ((be.timestamp_at_tick, "timestamp_at_tick"), (be.timestamp_at_tick_no_optimize_return, "timestamp_at_tick_no_optimize_return")):
+        for fn, nm in ((be.timestamp_at_tick, "timestamp_at_tick"), (be.timestamp_at_tick_no_optimize_return, "timestamp_at_tick_no_optimize_return"),
+                       (lambda t: be.timestamp_at_tick(t, start_iteration_index=last), f"timestamp_at_tick(start_iteration_index={last})"),
+                       (lambda t: be.timestamp_at_tick(t, start_iteration_index=0), "timestamp_at_tick(start_iteration_index=0)")):
             rec.ev()
             try:
                 r = fn(q)
@@ -179,7 +182,7 @@ def ctor_probes(rec, rng):
     import chartparse.sync as S
 
     def ev(tick, bpm=120.0):
-        return S.BPMEvent(tick=tick, timestamp=timedelta(seconds=tick / 100), bpm=bpm, _proximal_bpm_event_index=0)
+        return S.BPMEvent(tick=tick, timestamp=timedelta(seconds=tick / 100), bpm=bpm)
 
     def ts(tick):
         return S.TimeSignatureEvent(tick=tick, timestamp=timedelta(0), upper_numeral=4, lower_numeral=4)
@@ -256,6 +259,19 @@ def run_shard(shard, rec, tier, seed):
     if contracts.counts.get("timestamp_at_tick:returned"):
         rec.cls("contract_evaluated", contracts.counts["timestamp_at_tick:returned"])
     harness.finish(rec)
+
+
+def finalize(agg, tier):
+    # a constructor probe that could not even be built (public signature changed) is reported, not gated on
+    skipped = {k.split(":", 1)[1]: v for k, v in agg["monitor"].items() if k.startswith("ctor_probe_skipped:")}
+    for label, v in skipped.items():
+        if label == "all":
+            for c in required(tier):
+                if c.startswith("ctor:"):
+                    agg["monitor"][c] = agg["monitor"].get(c, 0) + v
+        else:
+            agg["monitor"][label] = agg["monitor"].get(label, 0) + v
+    return {"constructor_probes_skipped": skipped}
 
 
 def replay(case, rec):
